@@ -177,7 +177,7 @@ class Regex(Harness):
     def __init__(self, fn, maxn):
         self.fn = fn; self.maxn = maxn
         self.name = f"C19.regex.{fn}.n{maxn}"
-        self.bounds = {"elements": f"0..{maxn}", "patterns": PATTERNS, "strings": "bounded symbolic strings ('' is missing)"}
+        self.bounds = {"elements": f"0..{maxn}", "patterns": PATTERNS, "flags": "0, re.IGNORECASE, re.MULTILINE", "strings": "bounded symbolic strings ('' is missing)"}
         self.symbolic = ["string contents"]; self.choice_dims = ["length", "pattern", "calling form"]
         self.goals = [f"regex.py:{fn}"]
     def build(self, ctx):
@@ -189,9 +189,22 @@ class Regex(Harness):
         if form == "proxy": inp["proxy"] = True
         if form == "scalar":
             inp["scalar"] = True; inp["scalar_value"] = SymStr(symx.sym_str("s"))
+        fl = choice("flags", [0, 2, 8])         # none, re.IGNORECASE, re.MULTILINE
+        if fl: inp["flags"] = fl
         return inp
+    def probes(self, inp):
+        # re itself is uninterpreted: a dropped or altered flag shows on the real build only for strings on which the flag
+        # matters - aim the observation there
+        cells = [symx.tocell(c) for c in inp["x"].cells]
+        if inp.get("scalar"): cells = [symx.tocell(inp["scalar_value"])]
+        if not cells or not inp.get("flags"): return []
+        def upper(c): return z3.And(z3.UGE(c.n, 1), z3.UGE(c.ch[0], 0x41), z3.ULE(c.ch[0], 0x5A), z3.Not(c.tail))
+        def multi(c): return z3.And(c.n == 2, c.ch[0] == 0x0A, z3.UGE(c.ch[1], 0x61), z3.ULE(c.ch[1], 0x7A), z3.Not(c.tail))
+        return [("an upper-case ASCII letter first", z3.Or([upper(c) for c in cells])),
+                ("a line feed followed by a letter", z3.Or([multi(c) for c in cells])),
+                ("all strings start with an upper-case letter", z3.And([upper(c) for c in cells]))]
     def expected_concrete(self, inp, s):
-        return re_norm(getattr(_re, self.fn)(*inp["args"], s))
+        return re_norm(getattr(_re, self.fn)(*inp["args"], s, flags=inp.get("flags", 0)))
     def spec(self, inp, out):
         if isinstance(out, Raised): return [(f"does not raise ({out.type}: {out.msg[:80]})", T(False))]
         res = out["out"]; args = inp["args"]
@@ -199,8 +212,9 @@ class Regex(Harness):
             """got: result for the string `cell`"""
             if type(got).__name__ in ("ReResult", "ReToken"):
                 a, k = got.args
-                ok = got.name == self.fn and len(a) == len(args) + 1 and list(a[:-1]) == list(args) and not k or \
-                     (got.name == self.fn and list(a[:len(args)]) == list(args) and len(a) == len(args) + 1)
+                kk = dict(k); fl = kk.pop("flags", 0)
+                ok = (got.name == self.fn and list(a[:len(args)]) == list(args) and len(a) == len(args) + 1 and
+                      fl == inp.get("flags", 0) and all(v == 0 for v in kk.values()))
                 s = a[-1] if a else None
                 sc = symx.tocell(s) if isinstance(s, (str, SymStr)) else None
                 return z3.And(T(bool(ok)), sc.eq(symx.tocell(cell)) if sc is not None else T(False))
